@@ -178,6 +178,9 @@ HARNESSES = [
     H('U-PRS', 'parser', 'located_error_from_parts_contract', 'complete', ['C11', 'C04'], bounds='every mark (index, line, column) and every override offset',
       fns=['yaml::chunker::parser::LocatedError::from_parts'], timeout=300, min_covers=2,
       assumes=['libyaml line / column counters < u64::MAX']),
+    H('U-PRS', 'parser', 'parser_new_configures_libyaml', 'complete', ['C04', 'C03', 'C17'], bounds='one construction (the function has no input besides the reader, which it only stores)',
+      fns=['yaml::chunker::parser::Parser::new'], timeout=900,
+      assumes=['yaml_parser_set_encoding / yaml_parser_set_input replaced by recording probes; yaml_parser_initialize is the real unsafe-libyaml function']),
     H('U-PRS', 'parser', 'read_handler_null_arguments', 'complete', ['C17'], bounds='each of the three pointer arguments null',
       fns=['yaml::chunker::parser::Parser::read_handler'], timeout=300),
     H('U-PRS', 'parser', 'event_drop_releases_every_event_type', 'complete', ['C17', 'C05'], bounds='all 11 libyaml event types',
